@@ -129,7 +129,7 @@ def frame(spec, lo, hi):
             out.loc[m, ep["var"]] = out.loc[m, ep["var"]] + float(ep["add"])
     # keep the documented invariants after transforms
     out["Precipitation"] = out["Precipitation"].clip(lower=0.0)
-    out["ReferenceET"] = out["ReferenceET"].clip(lower=0.1)
+    out["ReferenceET"] = out["ReferenceET"].clip(lower=float(spec.get("et_floor", 0.1)))
     swap = out.MinTemp > out.MaxTemp
     if swap.any():
         lo_, hi_ = out.MinTemp.where(~swap, out.MaxTemp), out.MaxTemp.where(~swap, out.MinTemp)
